@@ -107,8 +107,10 @@ class World:
     def oid(self, i: int) -> int:
         """object ids (CPython addresses) relabelled injectively in order of first observation: the models only
         compare ids for equality, and small literals keep the generated Coq terms small"""
-        if i < 0:
+        if isinstance(i, int) and i < 0:
             return i
+        if not isinstance(i, int):
+            i = ("other", repr(i))      # a key component that is not an id: shows up as a digest mismatch
         j = self.oids.get(i)
         if j is None:
             j = len(self.oids) + 1
